@@ -151,6 +151,20 @@ func plan(tier string, seed int64) []driver.Case {
 				map[string]string{"kind": "pipe", "n": fmt.Sprint(n), "chain": strings.Join(names, ">"), "script": sc, "mode": mode, "drive": dr, "cut": cut, "cfg": fmt.Sprint(cfg)})
 		}
 	}
+	// (1b) call sites written inside an argument of another multi-line call (closure argument, go/defer body)
+	for _, shape := range shapes {
+		for n := 1; n <= 3; n++ {
+			for i := 0; i < 2; i++ {
+				names := make([]string, n)
+				for j := range names {
+					names[j] = pick()
+				}
+				sc := randScript(rng)
+				add(fmt.Sprintf("shape/%s/n%02d/%d/%s/[%s]", shape, n, i, strings.Join(names, ">"), sc),
+					map[string]string{"kind": "pipe", "shape": shape, "n": fmt.Sprint(n), "chain": strings.Join(names, ">"), "script": sc, "mode": "seq2", "drive": "sync", "cfg": fmt.Sprint(rng.Intn(3))})
+			}
+		}
+	}
 	// (2) literal call sites (every expression shape the introspection distinguishes), every arity
 	for n := 1; n <= maxArity; n++ {
 		for i := 0; i < fixedScripts; i++ {
@@ -964,12 +978,26 @@ func runPipe(c driver.Case) driver.Result {
 		in := instrumented{n: n, ops: n, hidden: -1}
 		if fixed {
 			in.obs, in.col = promFixed(cfg, s, n)
+		} else if shape := c.Get("shape"); shape != "" {
+			in.obs, in.col = promPipeShaped(shape, cfg, s, mkOps())
 		} else {
 			in.obs, in.col = promPipe(cfg, s, mkOps())
 		}
 		return in
 	}
 	an, rI, v, dirty := evaluate(primary)
+	if shape := c.Get("shape"); shape != "" && len(an) == 0 && licOn {
+		// the same operator expressions at the flat call site: the labels name the same operators
+		_, _, vFlat, d2 := evaluate(func(s ro.Observable[int]) instrumented {
+			in := instrumented{n: n, ops: n, hidden: -1}
+			in.obs, in.col = promPipe(cfg, s, mkOps())
+			return in
+		})
+		dirty = dirty || d2
+		if fmt.Sprint(v.labels) != fmt.Sprint(vFlat.labels) {
+			an = append(an, anomaly{"operator-labels-depend-on-the-shape-of-the-call-site", fmt.Sprintf("call written inside a %s: operator labels %q; the same call in a plain statement: %q", shape, v.labels, vFlat.labels)})
+		}
+	}
 	res.Dirty = dirty
 	res.Events = rP.Events + rM.Events + rI.Events
 	res.Nontrivial = rP.NextOut > 0
